@@ -1211,8 +1211,9 @@ impl<'a, 'b> Ctx<'a, 'b> {
             Ok(res) => self.universe.iter().map(|e| e.real.entry_match_no_index(&res)).collect(),
             Err(_) => vec![],
         };
-        let se = SearchEvent::new_internal(v.into_ignore_hidden());
-        let result = match self.rd.search(&se) {
+        // validate -> into_ignore_hidden -> search as the internal identity (no access control): the
+        // steps `scim_search_filter_ext` and `SearchEvent::new_ext_impersonate_uuid` perform
+        let spelled = match self.rd.search(&SearchEvent::new_internal(v.into_ignore_hidden())) {
             Ok(es) => {
                 let mut us: Vec<Uuid> = es.iter().map(|e| e.get_uuid()).collect();
                 us.sort();
@@ -1220,6 +1221,27 @@ impl<'a, 'b> Ctx<'a, 'b> {
             }
             Err(e) => Err(format!("{e:?}")),
         };
+        // LDAP: the answer comes from the search event the gateway itself builds
+        // (`SearchEvent::new_ext_impersonate_uuid`, through a hook, for the internal identity).
+        // (`scim_search_filter_ext` refuses the internal identity and applies access control to any
+        // other, so the SCIM answer is the spelled-out pipeline.)
+        let result: Result<Vec<Uuid>, String> = match t {
+            T::L(l) => match kanidmd_lib::verif_hooks::c41::ldap_search_event(self.rd, &to_ldap(l)) {
+                Err(e) => Err(format!("{e:?}")),
+                Ok(se) => match self.rd.search(&se) {
+                    Ok(es) => {
+                        let mut us: Vec<Uuid> = es.iter().map(|e| e.get_uuid()).collect();
+                        us.sort();
+                        Ok(us)
+                    }
+                    Err(e) => Err(format!("{e:?}")),
+                },
+            },
+            T::S(_) => spelled.clone(),
+        };
+        if spelled != result {
+            self.model_fail("pipeline", t, format!("validate -> into_ignore_hidden -> search (what the model composes): {spelled:?}"), format!("production entry point: {result:?}"));
+        }
         Outcome::Answer { text, mm, result }
     }
 
@@ -1392,7 +1414,12 @@ impl<'a, 'b> Ctx<'a, 'b> {
         let (want, got) = self.oracle(&cur).unwrap_or_default();
         if class != "unclassified" {
             self.rep.count(&format!("known:{class}"));
-            *self.known_recorded.entry(class.clone()).or_insert(0) += 1;
+            let n = self.known_recorded.entry(class.clone()).or_insert(0);
+            *n += 1;
+            if *n > 3 {
+                // enough witnesses of this known class are in the report
+                return;
+            }
         }
         let (proto, text) = replay_text(&cur);
         self.rep.fail(Failure {
@@ -1493,7 +1520,7 @@ fn main() {
             for t in small_scope(args.thorough()) {
                 ctx.run(&t, "small-scope");
             }
-            let nrand = args.cases(2500, 60000);
+            let nrand = args.cases(2500, 120_000).min(900_000);
             for i in 0..nrand {
                 let mut r = Rng::for_case(args.seed, i);
                 let (dmax, wmax) = (*r.pick(&[1usize, 2, 2, 3, 3, 4]), *r.pick(&[2usize, 2, 3, 3]));
